@@ -55,3 +55,43 @@ impl<T> VReserveExt<T> for Vec<T> {
 pub broadcast axiom fn axiom_byte_slice_len(s: &[u8])
     ensures
         #[trigger] s@.len() <= isize::MAX;
+
+
+// ---------------------------------------------------------------------------------------------- text -> number (std)
+// Verus has no byte-level reasoning about `str`.  The two std functions used by `parse_number_usize` are specified
+// through an abstract function `str_bytes` (the UTF-8 bytes of a `&str`).
+use std::str::FromStr;    // the real parser.rs has the same import at its top
+pub uninterp spec fn str_bytes(s: &str) -> Seq<u8>;
+
+pub open spec fn sh_all_ascii(v: Seq<u8>) -> bool { forall|i: int| 0 <= i < v.len() ==> #[trigger] v[i] < 128 }
+pub open spec fn sh_all_digits(v: Seq<u8>) -> bool { forall|i: int| 0 <= i < v.len() ==> 48 <= #[trigger] v[i] <= 57 }
+pub open spec fn sh_dec_value(s: Seq<u8>) -> nat
+    decreases s.len()
+{
+    if s.len() == 0 { 0 } else { sh_dec_value(s.drop_last()) * 10 + (s.last() - 48) as nat }
+}
+
+#[verifier::external_type_specification]
+#[verifier::external_body]
+pub struct ExUtf8Error(core::str::Utf8Error);
+
+#[verifier::external_type_specification]
+#[verifier::external_body]
+pub struct ExParseIntError(core::num::ParseIntError);
+
+// ASSUMED (std docs, `core::str::from_utf8`): "Converts a slice of bytes to a string slice"; fails only if the slice is
+// not valid UTF-8; bytes < 128 are always valid UTF-8 (ASCII); the returned str consists of exactly the given bytes.
+pub assume_specification<'a>[ core::str::from_utf8 ](v: &'a [u8]) -> (r: Result<&'a str, core::str::Utf8Error>)
+    ensures
+        sh_all_ascii(v@) ==> r is Ok,
+        r matches Ok(s) ==> str_bytes(s) == v@;
+
+// ASSUMED (std docs, `impl FromStr for usize` / `from_str_radix(s, 10)`): a non-empty string of decimal digits parses to
+// its decimal value if that fits `usize`, and gives `Err(ParseIntError { PosOverflow })` otherwise.  Nothing is said
+// about other strings (empty, sign, non-digits): the result is then arbitrary.
+pub assume_specification[ <usize as core::str::FromStr>::from_str ](s: &str) -> (r: Result<usize, core::num::ParseIntError>)
+    ensures
+        (str_bytes(s).len() > 0 && sh_all_digits(str_bytes(s))) ==> (match r {
+            Ok(n) => n == sh_dec_value(str_bytes(s)),
+            Err(_) => sh_dec_value(str_bytes(s)) > usize::MAX,
+        });
